@@ -55,6 +55,14 @@ Section CrossLe.
   Proof. unfold cross. destruct ctx; [apply cross1_le|]. apply each_le. intros. apply cross1_le. Qed.
 End CrossLe.
 
+Lemma obj_entries_le ev ev' :
+  (forall e ro vs ctx st, le_res (ev e ro vs ctx st) (ev' e ro vs ctx st)) ->
+  forall ro vs c es acc st, le_res (obj_entries ev ro vs c es acc st) (obj_entries ev' ro vs c es acc st).
+Proof.
+  intros H ro vs c es. induction es as [|[ke ve] es IH]; intros acc st; cbn [obj_entries]; [apply le_refl|].
+  apply le_bind; [apply cross_le; assumption|]. intros o. apply le_bind; [apply le_refl|]. intros pairs. apply IH.
+Qed.
+
 Ltac le_go H :=
   repeat first
     [ apply le_refl
@@ -63,6 +71,7 @@ Ltac le_go H :=
     | apply each_le; intros
     | apply iter_le; intros
     | apply cross_le; intros
+    | apply obj_entries_le; intros
     | match goal with |- le_res (match ?x with _ => _ end) (match ?x with _ => _ end) => destruct x end
     | match goal with |- le_res (if ?x then _ else _) (if ?x then _ else _) => destruct x end
     | match goal with |- le_res (let '(_, _) := ?x in _) (let '(_, _) := ?x in _) => destruct x end ].
